@@ -19,6 +19,7 @@ import (
 
 	"github.com/newrelic/newrelic-php-agent/daemon/internal/newrelic/collector"
 	"github.com/newrelic/newrelic-php-agent/daemon/internal/newrelic/infinite_tracing"
+	"github.com/newrelic/newrelic-php-agent/daemon/internal/newrelic/utilization"
 	"github.com/newrelic/newrelic-php-agent/daemon/internal/newrelic/protocol"
 )
 
@@ -915,8 +916,16 @@ func vProcOp(t []string) string {
 		// proc apphostile sq=<n>: the run-creation step of processConnectAttempt (NewAppHarvest, on the processor goroutine)
 		// for an application whose App message uses infinite tracing and announces the span queue size n
 		sq, _ := strconv.ParseUint(vKVor(t, "sq", "0"), 10, 64)
-		info := &AppInfo{License: "LICH", Appname: "hostile", AgentLanguage: "php", Hostname: "h", TraceObserverHost: "127.0.0.1",
-			TraceObserverPort: 1, SpanQueueSize: sq}
+		hs := func(k, d string) string {
+			if v, ok := vKV(t, k); ok {
+				return string(vUnhex(v))
+			}
+			return d
+		}
+		info := &AppInfo{License: collector.LicenseKey(hs("lic", "LICH")), Appname: hs("name", "hostile"), AgentLanguage: hs("lang", "php"),
+			AgentVersion: hs("ver", "1"), Hostname: hs("host", "h"), HostDisplayName: hs("dh", ""), RedirectCollector: hs("rc", ""),
+			DockerId: hs("dk", ""), SecurityPolicyToken: hs("tok", ""), TraceObserverHost: hs("toh", "127.0.0.1"),
+			TraceObserverPort: 1, SpanQueueSize: sq, Environment: JSONString(`[]`), Labels: JSONString(`[]`)}
 		crashed := 0
 		func() {
 			defer func() {
@@ -924,6 +933,12 @@ func vProcOp(t []string) string {
 					crashed = 1
 				}
 			}()
+			// what the processor goroutine does with a description: key, application object, connect payload, run
+			_ = info.Key()
+			var util utilization.Data
+			if _, err := EncodePayload(info.ConnectPayloadInternal(1, &util)); err != nil {
+				_ = err
+			}
 			app := NewApp(info)
 			app.connectReply = &ConnectReply{}
 			app.HarvestTrigger = func(chan HarvestType, chan bool) {}
